@@ -193,6 +193,17 @@ func (r *Rtmp2RtspRemuxer) doAnalyze() {
 			}
 		}
 
+		// metadata may name a G711/Opus codec without `audiosamplerate` (or with a value <= 0):
+		// fall back to the default rate instead of writing e.g. `a=rtpmap:8 PCMA/-1`
+		if r.audioSampleRate <= 0 {
+			switch r.audioPt {
+			case base.AvPacketPtG711U, base.AvPacketPtG711A:
+				r.audioSampleRate = pcmDefaultSampleRate
+			case base.AvPacketPtOpus:
+				r.audioSampleRate = opusDefaultSampleRate
+			}
+		}
+
 		// 回调sdp
 		videoInfo := sdp.VideoInfo{
 			VideoPt: r.videoPt,
